@@ -873,3 +873,183 @@ Qed.
 
 Theorem cbor_eqb_eq a b : cbor_eqb a b = true <-> a = b.
 Proof. split; [apply cbor_eqb_true|intros ->; apply cbor_eqb_refl]. Qed.
+
+(** * What a decoded value can look like: bounded nesting, no amplification *)
+Lemma depth_arr_le l f : Forall (fun x => (depth x <= f)%nat) l ->
+  (fold_right (fun x m => Nat.max (depth x) m) O l <= f)%nat.
+Proof. induction 1 as [|x l Hx _ IH]; cbn [fold_right]; lia. Qed.
+
+Lemma depth_map_le (l : list (cbor * cbor)) f :
+  Forall (fun kv => (depth (fst kv) <= f)%nat /\ (depth (snd kv) <= f)%nat) l ->
+  (fold_right (fun (kv : cbor * cbor) m => let (k, x) := kv in Nat.max (Nat.max (depth k) (depth x)) m) O l <= f)%nat.
+Proof. induction 1 as [|[k x] l [Hk Hx] _ IH]; cbn [fold_right fst snd] in *; lia. Qed.
+
+(** number of nodes plus payload bytes of a value *)
+Fixpoint size (v : cbor) : nat :=
+  match v with
+  | CBytes s | CText s => S (length s)
+  | CArr l => S (fold_right (fun x m => size x + m)%nat O l)
+  | CMap l => S (fold_right (fun (kv : cbor * cbor) m => let (k, x) := kv in size k + size x + m)%nat O l)
+  | CTag _ x => S (size x)
+  | _ => 1%nat
+  end.
+
+Section ItemsBounds.
+  Variable d : bytes -> option (cbor * bytes).
+  Variable f : nat.
+  Hypothesis Hdepth : forall b v r, d b = Some (v, r) -> (depth v <= f)%nat.
+  Hypothesis Hsize : forall b v r, d b = Some (v, r) -> (size v + length r <= length b)%nat.
+
+  Lemma dec_items_bounds cnt : forall b l r, dec_items d cnt b = Some (l, r) ->
+    Forall (fun x => (depth x <= f)%nat) l /\ (fold_right (fun x m => size x + m)%nat O l + length r <= length b)%nat.
+  Proof.
+    induction cnt as [|c IH]; intros b l r H; cbn [dec_items] in H.
+    - injection H as <- <-. split; [constructor|cbn [fold_right]; lia].
+    - destruct (d b) as [[v r0]|] eqn:E; [|discriminate].
+      destruct (dec_items d c r0) as [[l' r']|] eqn:E2; [|discriminate]. injection H as <- <-.
+      destruct (IH _ _ _ E2) as [F S2]. pose proof (Hdepth _ _ _ E). pose proof (Hsize _ _ _ E).
+      split; [constructor; assumption|cbn [fold_right]; lia].
+  Qed.
+
+  Lemma dec_pairs_bounds cnt : forall b l r, dec_pairs d cnt b = Some (l, r) ->
+    Forall (fun kv => (depth (fst kv) <= f)%nat /\ (depth (snd kv) <= f)%nat) l
+    /\ (fold_right (fun (kv : cbor * cbor) m => let (k, x) := kv in size k + size x + m)%nat O l + length r <= length b)%nat.
+  Proof.
+    induction cnt as [|c IH]; intros b l r H; cbn [dec_pairs] in H.
+    - injection H as <- <-. split; [constructor|cbn [fold_right]; lia].
+    - destruct (d b) as [[k r0]|] eqn:E; [|discriminate].
+      destruct (d r0) as [[v r1]|] eqn:E1; [|discriminate].
+      destruct (dec_pairs d c r1) as [[l' r']|] eqn:E2; [|discriminate]. injection H as <- <-.
+      destruct (IH _ _ _ E2) as [F S2].
+      pose proof (Hdepth _ _ _ E). pose proof (Hsize _ _ _ E). pose proof (Hdepth _ _ _ E1). pose proof (Hsize _ _ _ E1).
+      split; [constructor; [cbn [fst snd]; split; assumption|assumption]|cbn [fold_right]; lia].
+  Qed.
+
+  Lemma dec_items_indef_bounds k : forall b l r, dec_items_indef d k b = Some (l, r) ->
+    Forall (fun x => (depth x <= f)%nat) l /\ (fold_right (fun x m => size x + m)%nat O l + length r <= length b)%nat.
+  Proof.
+    induction k as [|k IH]; intros b l r H; cbn [dec_items_indef] in H; [discriminate|].
+    destruct (is_break b) as [r0|] eqn:Eb.
+    - injection H as <- <-. apply is_break_spec in Eb as ->. split; [constructor|cbn [fold_right length]; lia].
+    - destruct (d b) as [[v r0]|] eqn:E; [|discriminate].
+      destruct (dec_items_indef d k r0) as [[l' r']|] eqn:E2; [|discriminate]. injection H as <- <-.
+      destruct (IH _ _ _ E2) as [F S2]. pose proof (Hdepth _ _ _ E). pose proof (Hsize _ _ _ E).
+      split; [constructor; assumption|cbn [fold_right]; lia].
+  Qed.
+
+  Lemma dec_pairs_indef_bounds k : forall b l r, dec_pairs_indef d k b = Some (l, r) ->
+    Forall (fun kv => (depth (fst kv) <= f)%nat /\ (depth (snd kv) <= f)%nat) l
+    /\ (fold_right (fun (kv : cbor * cbor) m => let (k, x) := kv in size k + size x + m)%nat O l + length r <= length b)%nat.
+  Proof.
+    induction k as [|k IH]; intros b l r H; cbn [dec_pairs_indef] in H; [discriminate|].
+    destruct (is_break b) as [r0|] eqn:Eb.
+    - injection H as <- <-. apply is_break_spec in Eb as ->. split; [constructor|cbn [fold_right length]; lia].
+    - destruct (d b) as [[key r0]|] eqn:E; [|discriminate].
+      destruct (d r0) as [[v r1]|] eqn:E1; [|discriminate].
+      destruct (dec_pairs_indef d k r1) as [[l' r']|] eqn:E2; [|discriminate]. injection H as <- <-.
+      destruct (IH _ _ _ E2) as [F S2].
+      pose proof (Hdepth _ _ _ E). pose proof (Hsize _ _ _ E). pose proof (Hdepth _ _ _ E1). pose proof (Hsize _ _ _ E1).
+      split; [constructor; [cbn [fst snd]; split; assumption|assumption]|cbn [fold_right]; lia].
+  Qed.
+End ItemsBounds.
+
+Lemma take_length n b a r : take n b = Some (a, r) -> length b = (length a + length r)%nat.
+Proof. intros H. apply take_spec in H as [-> _]. apply app_length. Qed.
+
+Lemma dec_chunks_size mt k : forall nested b s r, dec_chunks mt k nested b = Some (s, r) ->
+  (S (length s) + length r <= length b)%nat.
+Proof.
+  induction k as [|k IH]; intros nested b s r H; cbn [dec_chunks] in H; [discriminate|].
+  destruct (head_decode b) as [[[[m ai] arg] r0]|] eqn:Eh; [|discriminate].
+  apply head_decode_spec in Eh as (_ & _ & Hc). apply consumes_length in Hc.
+  destruct ((m =? 7) && match arg with ArgIndef => true | ArgN _ => false end).
+  { destruct nested as [|[|n]].
+    - injection H as <- <-. cbn [length]. lia.
+    - injection H as <- <-. cbn [length]. lia.
+    - specialize (IH _ _ _ _ H). lia. }
+  destruct (m =? mt); [|discriminate].
+  destruct arg as [len|].
+  - destruct (take len r0) as [[c r1]|] eqn:Et; [|discriminate]. apply take_length in Et.
+    destruct ((mt =? 3) && negb (utf8_valid c)); [discriminate|].
+    destruct (dec_chunks mt k nested r1) as [[s' r']|] eqn:E2; [|discriminate]. injection H as <- <-.
+    specialize (IH _ _ _ _ E2). rewrite app_length. lia.
+  - specialize (IH _ _ _ _ H). lia.
+Qed.
+
+Lemma strip_zeros_length s : (length (strip_zeros s) <= length s)%nat.
+Proof. induction s as [|x s IH]; cbn [strip_zeros length]; [lia|]. destruct x; cbn [length]; lia. Qed.
+
+(** a decoded value nests at most [fuel] deep and is never larger than the input consumed for it *)
+Theorem decode_bounds : forall fuel b v r, cbor_decode fuel b = Some (v, r) ->
+  (depth v <= fuel)%nat /\ (size v + length r <= length b)%nat.
+Proof.
+  induction fuel as [|f IH]; intros b v r H; [discriminate|]. cbn [cbor_decode] in H.
+  destruct (head_decode b) as [[[[mt ai] arg] r0]|] eqn:Eh; [|discriminate].
+  apply head_decode_spec in Eh as (Hmt & _ & Hc). apply consumes_length in Hc.
+  destruct (mt_cases mt Hmt) as [->|[->|[->|[->|[->|[->|[->| ->]]]]]]]; cbv beta iota in H.
+  - destruct arg; [|discriminate]. injection H as <- <-. cbn [depth size]. lia.
+  - destruct arg; [|discriminate]. injection H as <- <-. cbn [depth size]. lia.
+  - destruct arg as [n|].
+    + destruct (take n r0) as [[s r']|] eqn:Et; [|discriminate]. injection H as <- <-.
+      apply take_length in Et. cbn [depth size]. lia.
+    + destruct (dec_chunks 2 (S (length r0)) 1 r0) as [[s r']|] eqn:Ec; [|discriminate]. injection H as <- <-.
+      apply dec_chunks_size in Ec. cbn [depth size]. lia.
+  - destruct arg as [n|].
+    + destruct (take n r0) as [[s r']|] eqn:Et; [|discriminate].
+      destruct (utf8_valid s); [|discriminate]. injection H as <- <-.
+      apply take_length in Et. cbn [depth size]. lia.
+    + destruct (dec_chunks 3 (S (length r0)) 1 r0) as [[s r']|] eqn:Ec; [|discriminate]. injection H as <- <-.
+      apply dec_chunks_size in Ec. cbn [depth size]. lia.
+  - destruct f as [|f']; [discriminate|].
+    assert (Hd : forall b v r, cbor_decode (S f') b = Some (v, r) -> (depth v <= S f')%nat) by (intros; eapply IH; eauto).
+    assert (Hs : forall b v r, cbor_decode (S f') b = Some (v, r) -> (size v + length r <= length b)%nat) by (intros; eapply IH; eauto).
+    destruct arg as [n|].
+    + destruct (N.of_nat (length r0) <? n); [discriminate|].
+      destruct (dec_items (cbor_decode (S f')) (N.to_nat n) r0) as [[l r']|] eqn:Ed; [|discriminate].
+      injection H as <- <-. destruct (dec_items_bounds _ _ Hd Hs _ _ _ _ Ed) as [F S2].
+      apply depth_arr_le in F. cbn [depth size]. lia.
+    + destruct (dec_items_indef (cbor_decode (S f')) (S (length r0)) r0) as [[l r']|] eqn:Ed; [|discriminate].
+      injection H as <- <-. destruct (dec_items_indef_bounds _ _ Hd Hs _ _ _ _ Ed) as [F S2].
+      apply depth_arr_le in F. cbn [depth size]. lia.
+  - destruct f as [|f']; [discriminate|].
+    assert (Hd : forall b v r, cbor_decode (S f') b = Some (v, r) -> (depth v <= S f')%nat) by (intros; eapply IH; eauto).
+    assert (Hs : forall b v r, cbor_decode (S f') b = Some (v, r) -> (size v + length r <= length b)%nat) by (intros; eapply IH; eauto).
+    destruct arg as [n|].
+    + destruct (N.of_nat (length r0) <? n); [discriminate|].
+      destruct (dec_pairs (cbor_decode (S f')) (N.to_nat n) r0) as [[l r']|] eqn:Ed; [|discriminate].
+      injection H as <- <-. destruct (dec_pairs_bounds _ _ Hd Hs _ _ _ _ Ed) as [F S2].
+      apply depth_map_le in F. cbn [depth size]. lia.
+    + destruct (dec_pairs_indef (cbor_decode (S f')) (S (length r0)) r0) as [[l r']|] eqn:Ed; [|discriminate].
+      injection H as <- <-. destruct (dec_pairs_indef_bounds _ _ Hd Hs _ _ _ _ Ed) as [F S2].
+      apply depth_map_le in F. cbn [depth size]. lia.
+  - destruct arg as [t|]; [|discriminate].
+    destruct (bignum_shape t r0) as [[len r1]|] eqn:Eb.
+    + assert (Hs : (length r1 < length r0)%nat).
+      { unfold bignum_shape in Eb. destruct ((t =? 2) || (t =? 3)); [|discriminate].
+        destruct (head_decode r0) as [[[[m2 ai2] [len2|]] r2]|] eqn:Eh2; try discriminate.
+        destruct ((m2 =? 2) && (len2 <=? 16)); [|discriminate]. injection Eb as <- <-.
+        apply head_decode_spec in Eh2 as (_ & _ & Hc2). apply consumes_length, Hc2. }
+      destruct (take len r1) as [[s r']|] eqn:Et; [|discriminate]. apply take_length in Et.
+      pose proof (strip_zeros_length s) as Hz.
+      destruct (length (strip_zeros s) <=? 8)%nat; [injection H as <- <-; cbn [depth size]; lia|].
+      destruct ((t =? 3) && (16 <=? length (strip_zeros s))%nat && (128 <=? hd 0 (strip_zeros s))); [discriminate|].
+      injection H as <- <-. cbn [depth size]. lia.
+    + destruct f as [|f']; [discriminate|].
+      destruct (cbor_decode (S f') r0) as [[x r']|] eqn:Ed; [|discriminate]. injection H as <- <-.
+      destruct (IH _ _ _ Ed) as [D S2]. cbn [depth size]. lia.
+  - destruct arg as [n|]; [|discriminate].
+    destruct (ai =? 25); [injection H as <- <-; cbn [depth size]; lia|].
+    destruct (ai =? 26); [injection H as <- <-; cbn [depth size]; lia|].
+    destruct (ai =? 27); [injection H as <- <-; cbn [depth size]; lia|].
+    pose proof (simple_value_rest _ _ _ _ H) as ->.
+    unfold simple_value in H.
+    destruct (n =? 20); [injection H as <-; cbn [depth size]; lia|].
+    destruct (n =? 21); [injection H as <-; cbn [depth size]; lia|].
+    destruct ((n =? 22) || (n =? 23)); [injection H as <-; cbn [depth size]; lia|discriminate].
+Qed.
+
+Corollary decode_depth fuel b v r : cbor_decode fuel b = Some (v, r) -> (depth v <= fuel)%nat.
+Proof. intros H. apply (decode_bounds _ _ _ _ H). Qed.
+
+Corollary decode_size fuel b v r : cbor_decode fuel b = Some (v, r) -> (size v + length r <= length b)%nat.
+Proof. intros H. apply (decode_bounds _ _ _ _ H). Qed.
